@@ -47,6 +47,7 @@ compare(const ByteBuffer *b, const unsigned char *mem, const struct model *m, co
 }
 
 static int add_from_self;
+static size_t atmost_huge; /* > 0: the next consume_at_most asks for this many octets */
 enum { OP_ADD, OP_CONSUME, OP_ATMOST, OP_REWIND, OP_RESET, OP_CLEAR, OP_REPEAT, NOPS };
 static const char *opname[] = { "add", "consume", "consume_at_most", "rewind", "reset", "clear", "repeat" };
 
@@ -114,8 +115,15 @@ step(ByteBuffer *b, unsigned char *mem, struct model *m, int op, size_t n, const
         break;
     }
     case OP_ATMOST: {
-        unsigned char *d = vh_arena(n);
         size_t rest = m->used - m->offset;
+        /* "whatever is there": a request far beyond anything a buffer can hold, with a destination that is exactly
+         * as large as what is unread */
+        size_t asked = n;
+        if (atmost_huge && rest > 0) {
+            asked = atmost_huge;
+            n = rest;
+        }
+        unsigned char *d = vh_arena(n);
         if (rest == 0) {
             unsigned sel = (unsigned)(n + m->offset) % 3u;
             if (sel == 0)
@@ -123,7 +131,7 @@ step(ByteBuffer *b, unsigned char *mem, struct model *m, int op, size_t n, const
             else if (sel == 1)
                 vh_poison(d, n);
         }
-        ssize_t rc = byte_buffer_consume_at_most(b, d, n);
+        ssize_t rc = byte_buffer_consume_at_most(b, d, atmost_huge && rest > 0 ? asked : n);
         if (rest == 0) {
             VH_COUNT("consume_at_most refused (nothing unread)");
             if (rc >= 0)
@@ -477,6 +485,12 @@ u_history(uint64_t idx, void *arg)
                             "%02x, offset=%zu used=%zu", i, out2[0], out2[1], in2[0], in2[1], by.offset, by.used);
                 VH_COUNT("history: second buffer used in between");
             }
+            atmost_huge = 0;
+            if (op == OP_ATMOST && vh_chance(&r, 1, 6)) {
+                static const size_t hugev[] = { SIZE_MAX, (size_t)SSIZE_MAX + 1, (size_t)SSIZE_MAX, SIZE_MAX / 2 + 7, (size_t)1 << 32 };
+                atmost_huge = hugev[vh_below(&r, 5)];
+                VH_COUNT("consume_at_most asking for more than SSIZE_MAX octets");
+            }
             add_from_self = 0;
             if (op == OP_ADD && n > 0 && n <= m.used && n <= m.size - m.used && vh_chance(&r, 1, 3)) {
                 memcpy(src, m.img, n);
@@ -486,6 +500,7 @@ u_history(uint64_t idx, void *arg)
             uint64_t fails_before = *vh_nfail;
             step(&b, mem, &m, op, n, src, "history");
             add_from_self = 0;
+            atmost_huge = 0;
             if (*vh_nfail != fails_before) {
                 /* re-synchronise the model so that one defect is reported once, not as a cascade */
                 if (!(b.offset <= b.used && b.used <= b.size && b.size == size && b.data == mem))
@@ -520,7 +535,8 @@ harness_run(void)
                                  "set accepted", "set refused", "use/space checked",
                                  "history: buffer size above 254", "set-up with values at the extremes of size_t",
                                  "consume that must be refused, without a destination",
-                                 "add whose source is the buffer's own filled region" };
+                                 "add whose source is the buffer's own filled region",
+                                 "consume_at_most asking for more than SSIZE_MAX octets" };
     for (size_t i = 0; i < sizeof req / sizeof req[0]; i++)
         vh_require(req[i]);
 }
